@@ -16,7 +16,10 @@ theorem FI.congrAP {pf' : List Nat} {s s' : BSt} (h : FI ex pf s)
     (hplog : ∀ i, ∀ p ∈ (s'.th i).popped, p ∈ s'.popLog)
     (hact : ∀ a, pendOf s' a = pendOf s a) (hflags : s'.flags = s.flags)
     (hrem : s'.removalFlags = s.removalFlags) (hnf : s'.nextFlag = s.nextFlag)
-    (hpf : ∀ f ∈ pf', f ∈ pf ∨ ∃ i, ∃ st ∈ (s'.th i).popped, st.kind = .flush f) : FI ex pf' s' where
+    (hpf : ∀ f ∈ pf', f ∈ pf ∨ ∃ i, ∃ st ∈ (s'.th i).popped, st.kind = .flush f)
+    (hsub : ∀ f ∈ pf, f ∈ pf')
+    (hnew : ∀ i, ∀ st ∈ (s'.th i).popped, ∀ f, st.kind = .flush f → st ∈ (s.th i).popped ∨ f ∈ pf') :
+    FI ex pf' s' where
   cons := hcons
   plog := hplog
   flg := fun f hf => by
@@ -29,6 +32,12 @@ theorem FI.congrAP {pf' : List Nat} {s s' : BSt} (h : FI ex pf s)
     · obtain ⟨i, st, h2, h3⟩ := h.flgP f h1
       exact ⟨i, st, hpopd i st h2, h3⟩
     · exact h1
+  popFlag := fun i st hst f hk => by
+    rcases hnew i st hst f hk with h1 | h1
+    · rcases h.popFlag i st h1 f hk with h2 | h2
+      · exact Or.inl (by rw [hflags]; exact h2)
+      · exact Or.inr (hsub f h2)
+    · exact Or.inr h1
   rem := fun gf hgf => by
     rw [hrem] at hgf
     obtain ⟨i, st, h1, h2⟩ := h.rem gf hgf
@@ -42,8 +51,16 @@ theorem FI.congrAP {pf' : List Nat} {s s' : BSt} (h : FI ex pf s)
     refine ⟨by rw [hnf]; exact p1, fun i => by rw [hacc]; exact p2 i, fun b y st' hb hy => ?_⟩
     rw [hact] at hy; exact p3 b y st' hb hy
 
-theorem FI.weakenPf {pf' : List Nat} (h : FI ex pf s) (hsub : ∀ f ∈ pf', f ∈ pf) : FI ex pf' s :=
-  { h with flgP := fun f hf => h.flgP f (hsub f hf) }
+theorem FI.weakenPf {pf' : List Nat} (h : FI ex pf s) (hsub : ∀ f ∈ pf', f ∈ pf)
+    (hfl : ∀ f ∈ pf, f ∈ pf' ∨ f ∈ s.flags) : FI ex pf' s :=
+  { h with
+    flgP := fun f hf => h.flgP f (hsub f hf)
+    popFlag := fun i st hst f hk => by
+      rcases h.popFlag i st hst f hk with h1 | h1
+      · exact Or.inl h1
+      · rcases hfl f h1 with h2 | h2
+        · exact Or.inr h2
+        · exact Or.inl h2 }
 
 /-- raising a flag whose Flush statement has been popped -/
 theorem FI.raise (h : FI ex pf s) (f : Nat) (hf : f ∈ pf) (fl : List (Nat × Nat)) :
@@ -52,7 +69,11 @@ theorem FI.raise (h : FI ex pf s) (f : Nat) (hf : f ∈ pf) (fl : List (Nat × N
     flg := fun g hg => by
       rcases List.mem_cons.mp hg with rfl | hg
       · exact Or.inl (h.flgP g hf)
-      · exact h.flg g hg }
+      · exact h.flg g hg
+    popFlag := fun i st hst g hk => by
+      rcases h.popFlag i st hst g hk with h1 | h1
+      · exact Or.inl (List.mem_cons_of_mem _ h1)
+      · exact Or.inr h1 }
 
 /-- raising the flag of a decoded removal request -/
 theorem FI.raiseRemoval (h : FI ex pf s) (gid f : Nat) (hm : (gid, f) ∈ s.removalFlags) (fl : List (Nat × Nat)) :
@@ -62,6 +83,10 @@ theorem FI.raiseRemoval (h : FI ex pf s) (gid f : Nat) (hm : (gid, f) ∈ s.remo
       rcases List.mem_cons.mp hg with rfl | hg
       · exact Or.inr (h.rem (gid, g) hm)
       · exact h.flg g hg
+    popFlag := fun i st hst g hk => by
+      rcases h.popFlag i st hst g hk with h1 | h1
+      · exact Or.inl (List.mem_cons_of_mem _ h1)
+      · exact Or.inr h1
     rem := fun gf hgf => h.rem gf (List.mem_filter.mp hgf).1 }
 
 /-- decoding a removal request found in a queue -/
@@ -194,21 +219,6 @@ theorem same2_cleanupContexts (s : BSt) : Same2 s (Backend.cleanupContexts s) :=
 theorem FI.cleanupContexts (h : FI none pf s) : FI none pf (Backend.cleanupContexts s) :=
   h.same (same2_cleanupContexts s)
 
-def rqLate (tsNow : Option Nat) (st : Stmt) : Bool :=
-  match tsNow with | some t => decide (t < st.ts) | none => false
-
-theorem readQueue_succ' (inj : BSt → Nat → BSt) (tsNow : Option Nat) (i fuel total : Nat) (s : BSt) :
-    readQueue inj tsNow i (fuel + 1) total s =
-      if !(qPrepareRead s.cfg (s.th i).q).2 then rqFin (rqPrep s i) i total else
-      match (s.th i).qStmts with
-      | [] => rqFin (rqPrep s i) i total
-      | st :: rest =>
-        if rqLate tsNow st then rqFin (rqPrep s i) i total else
-        if total + st.size < (inj (rqMove s i st rest) 3).cfg.qcap ∧
-            ((inj (rqMove s i st rest) 3).th i).buf.length < (inj (rqMove s i st rest) 3).cfg.hard
-        then readQueue inj tsNow i fuel (total + st.size) (inj (rqMove s i st rest) 3)
-        else rqCommit (inj (rqMove s i st rest) 3) i := rfl
-
 theorem same2_rqCommit (s : BSt) (i : Nat) : Same2 s (rqCommit s i) := Same2.setTh s i _ ⟨rfl, rfl, rfl, rfl⟩
 theorem same2_rqFin (s : BSt) (i total : Nat) : Same2 s (rqFin s i total) := by
   unfold rqFin; split
@@ -234,7 +244,8 @@ theorem FI.moveTh (h : FI ex pf s) (i : Nat) (f : Th → Th)
     · rw [h1]
     · rw [h1, f2]
   refine h.congrAP hacc (fun j p hp => by rw [hpop]; exact hp) ?_ (fun j p hp => by rw [hpop] at hp; exact h.plog j p hp)
-    (fun _ => rfl) rfl rfl rfl (fun f hf => Or.inl hf)
+    (fun _ => rfl) rfl rfl rfl (fun f hf => Or.inl hf) (fun f hf => hf)
+    (fun j st hst f _ => Or.inl (by rw [hpop] at hst; exact hst))
   intro j
   rcases hcases j with h1 | ⟨rfl, h1⟩
   · rw [h1]; exact h.cons j
@@ -265,7 +276,7 @@ theorem FI.readQueue (hi : InjOK2 inj) (tsNow : Option Nat) (i : Nat) (fuel : Na
   | zero => intro total s h; exact h
   | succ n ih =>
     intro total s h
-    rw [readQueue_succ']
+    rw [readQueue_succ]
     have hfin := fun tot => (h.same (same2_rqPrep s i)).same (same2_rqFin _ i tot)
     split
     · exact hfin total
@@ -278,6 +289,10 @@ theorem FI.readQueue (hi : InjOK2 inj) (tsNow : Option Nat) (i : Nat) (fuel : Na
           split
           · exact ih _ _ h4
           · exact h4.same (same2_rqCommit _ i)
+
+theorem processEvent_flush (s : BSt) (st : Stmt) (f : Nat) (hk : st.kind = .flush f) :
+    processEvent s st = (flushSinks s, none, some f) := by
+  unfold processEvent; rw [hk]
 
 theorem processEvent_flag (s : BSt) (st : Stmt) (f : Nat) (h : (processEvent s st).2.2 = some f) : st.kind = .flush f := by
   unfold processEvent at h
@@ -295,7 +310,8 @@ theorem processEvent_flag (s : BSt) (st : Stmt) (f : Nat) (h : (processEvent s s
 
 /-- the front of context `j` moves to `popped` (it is already in the global pop log) -/
 theorem FI.popTh (h : FI none pf s) (j : Nat) (st : Stmt) (rest : List Stmt) (hb : (s.th j).buf = st :: rest)
-    (hmem : st ∈ s.popLog) (pf' : List Nat) (hpf' : ∀ f ∈ pf', f ∈ pf ∨ st.kind = .flush f) :
+    (hmem : st ∈ s.popLog) (pf' : List Nat) (hpf' : ∀ f ∈ pf', f ∈ pf ∨ st.kind = .flush f)
+    (hsub : ∀ f ∈ pf, f ∈ pf') (hst' : ∀ f, st.kind = .flush f → f ∈ pf') :
     FI none pf' (s.setTh j (fun t => { t with buf := rest, popped := t.popped ++ [st] })) := by
   have hlt : j < s.ths.length := by
     apply Classical.byContradiction; intro hn
@@ -317,7 +333,15 @@ theorem FI.popTh (h : FI none pf s) (j : Nat) (st : Stmt) (rest : List Stmt) (hb
     intro i p hp; rcases hcases i with h1 | ⟨hij, h1⟩
     · rw [h1]; exact hp
     · rw [h1, g2, ← hij]; exact List.mem_append_left _ hp
-  refine h.congrAP hacc hpopd ?_ ?_ (fun _ => rfl) rfl rfl rfl ?_
+  refine h.congrAP hacc hpopd ?_ ?_ (fun _ => rfl) rfl rfl rfl ?_ hsub ?_
+  rotate_left 3
+  · intro i r hr f hk
+    rcases hcases i with h1 | ⟨hij, h1⟩
+    · rw [h1] at hr; exact Or.inl hr
+    · rw [h1, g2] at hr
+      rcases List.mem_append.mp hr with h2 | h2
+      · exact Or.inl (by rw [hij]; exact h2)
+      · rw [List.mem_singleton.mp h2] at hk; exact Or.inr (hst' f hk)
   · intro i
     rcases hcases i with h1 | ⟨hij, h1⟩
     · rw [h1]; exact h.cons i
@@ -339,11 +363,12 @@ theorem FI.popTh (h : FI none pf s) (j : Nat) (st : Stmt) (rest : List Stmt) (hb
 
 /-- popping the front of context `j` -/
 theorem FI.pop (h : FI none pf s) (j : Nat) (st : Stmt) (rest : List Stmt) (hb : (s.th j).buf = st :: rest)
-    (pf' : List Nat) (hpf' : ∀ f ∈ pf', f ∈ pf ∨ st.kind = .flush f) : FI none pf' (plPop s j st rest) := by
+    (pf' : List Nat) (hpf' : ∀ f ∈ pf', f ∈ pf ∨ st.kind = .flush f)
+    (hsub : ∀ f ∈ pf, f ∈ pf') (hst' : ∀ f, st.kind = .flush f → f ∈ pf') : FI none pf' (plPop s j st rest) := by
   have h0 : FI none pf { s with popLog := st :: s.popLog } :=
     h.congrAP (fun _ => rfl) (fun _ _ hp => hp) h.cons (fun i p hp => List.mem_cons_of_mem _ (h.plog i p hp))
-      (fun _ => rfl) rfl rfl rfl (fun f hf => Or.inl hf)
-  exact h0.popTh j st rest hb (List.mem_cons_self ..) pf' hpf'
+      (fun _ => rfl) rfl rfl rfl (fun f hf => Or.inl hf) (fun f hf => hf) (fun i r hr f _ => Or.inl hr)
+  exact h0.popTh j st rest hb (List.mem_cons_self ..) pf' hpf' hsub hst'
 
 theorem FI.processLowest (hi : InjOK2 inj) (h : FI none pf s) : FI none pf (Backend.processLowest inj s).1 := by
   rw [processLowest_eq]
@@ -369,7 +394,8 @@ theorem FI.processLowest (hi : InjOK2 inj) (h : FI none pf s) : FI none pf (Back
           h2.pop j st rest (by rw [hth]; exact hb) (f :: pf) (fun g hg => by
             rcases List.mem_cons.mp hg with rfl | hg
             · exact Or.inr hk
-            · exact Or.inl hg)
+            · exact Or.inl hg) (fun g hg => List.mem_cons_of_mem _ hg)
+            (fun g hg => by rw [hk] at hg; cases hg; exact List.mem_cons_self ..)
         unfold plFlag plPre
         have h5 : FI none (f :: pf) (Backend.cleanupContexts (if (plPop s2 j st rest).cfg.reportBeforeFlushCleanup = true then
             Backend.checkFailures inj (plPop s2 j st rest) else plPop s2 j st rest)) := by
@@ -377,8 +403,15 @@ theorem FI.processLowest (hi : InjOK2 inj) (h : FI none pf s) : FI none pf (Back
           split
           · exact hpop.checkFailures hi
           · exact hpop
-        exact (h5.raise f (List.mem_cons_self ..) _).weakenPf (fun g hg => List.mem_cons_of_mem _ hg)
-      · exact h2.pop j st rest (by rw [hth]; exact hb) pf (fun g hg => Or.inl hg)
+        refine (h5.raise f (List.mem_cons_self ..) _).weakenPf (fun g hg => List.mem_cons_of_mem _ hg) ?_
+        intro g hg
+        rcases List.mem_cons.mp hg with rfl | hg
+        · exact Or.inr (List.mem_cons_self ..)
+        · exact Or.inl hg
+      · rename_i hnone
+        refine h2.pop j st rest (by rw [hth]; exact hb) pf (fun g hg => Or.inl hg) (fun g hg => hg) ?_
+        intro g hg
+        rw [processEvent_flush s st g hg] at hnone; cases hnone
 
 theorem FI.populate (hi : InjOK2 inj) (h : FI none pf s) : FI none pf (Backend.populate inj s).1 := by
   unfold Backend.populate
